@@ -1,6 +1,6 @@
 SPECIFICATION Spec
 CONSTANTS
-  NLoaders = 3
+  NLoaders = 4
   MaxOps = 5
   Emit = TRUE
 INVARIANTS FirstWins EmitVec
